@@ -674,25 +674,52 @@ func runC05(c *Ctx) {
 	}
 	// online
 	if ot := c.A.Method("", "Session", "onlineTransition"); ot != nil {
-		hostOn, macOn := false, false
+		var hostStores, macStores []ssa.Instruction
 		core.EachInstr(ot, func(i ssa.Instruction) {
 			if s, ok := i.(*ssa.Store); ok {
 				if v, isC := constBool(s.Val); isC && v {
 					switch norm(s.Addr) {
 					case "arg0.Online":
-						hostOn = true
+						hostStores = append(hostStores, i)
 					case "arg0.MACEntry.Online":
-						macOn = true
+						macStores = append(macStores, i)
 					}
 				}
 			}
 		})
+		// wherever the host goes online the MAC entry does: a store MACEntry.Online = true dominates the host's store, or
+		// lies on every path from it to a return (a store only in the branches that refresh the entry's recorded address
+		// misses the host that comes back with the address the entry already records)
 		st := core.Proved
-		if !hostOn || !macOn {
+		if len(hostStores) == 0 || len(macStores) == 0 {
 			st = core.Violated
 		}
+		for _, hs := range hostStores {
+			together := false
+			for _, ms := range macStores {
+				if core.InstrDominates(ms, hs) {
+					together = true
+				}
+			}
+			if !together {
+				isMac := func(j ssa.Instruction) bool {
+					for _, ms := range macStores {
+						if j == ms {
+							return true
+						}
+					}
+					return false
+				}
+				if ok, _ := mustPass(hs, isMac); ok {
+					together = true
+				}
+			}
+			if !together {
+				st = core.Violated
+			}
+		}
 		r.Add(core.Obligation{Rule: "online", Key: "online host and MAC entry go online together", Func: core.FuncName(ot), Pos: c.P.Pos(ot.Pos()), Status: st,
-			Basis: "Host.Online = true and MACEntry.Online = true in the same block", Detail: fmt.Sprintf("host=%v mac=%v", hostOn, macOn)})
+			Basis: "MACEntry.Online = true dominates Host.Online = true or lies on every path after it", Detail: fmt.Sprintf("onlineTransition sets Host.Online (%d sites) on a path that does not set MACEntry.Online (%d sites): a host that returns with the address its MAC entry already records is online under an entry marked offline", len(hostStores), len(macStores))})
 	}
 	if mo := c.A.Method("", "Session", "makeOffline"); mo != nil {
 		ok := false
